@@ -16,7 +16,7 @@ if exactly one is, else within 4(n+8)u of 1-dot/sqrt(|a|^2|b|^2) computed in dou
 cosine(b,a) must be bit-identical. Integers: the stated wrapping formula with (x as f64).sqrt() as T, computed in \
 i128 and truncated, bit-exact; the call must panic exactly when that root is 0 while neither norm is 0. Value \
 classes: random, parallel / anti-parallel / orthogonal, one or both vectors zero, small integers, full-range \
-(wrapping) integers, boundary values; every length of the smart subset. distinct = hash set over (routine, DIMS, \
+(wrapping) integers, boundary values; every length 0..=2*dense+7*lane+tail. distinct = hash set over (routine, DIMS, \
 mask, a, b); non-trivial = length > 0 and not both vectors zero.";
 
 fn gen_pair<T: Elem>(rng: &mut Rng, n: usize, class: u64, bounds: &[T]) -> (Vec<T>, Vec<T>) {
@@ -130,8 +130,7 @@ fn one_target<T: Elem>(ctx: &mut Ctx, t: Target<T>) {
     let pack = pack_len(&t);
     let lens: Vec<usize> = match (t.r.dims, tier) {
         (Some(d), _) => vec![d],
-        (None, Tier::Quick) => vals::smart_lengths(t.lane, &[]),
-        (None, Tier::Thorough) => (0..=vals::max_len(t.lane)).collect(),
+        (None, _) => (0..=vals::max_len(t.lane)).collect(),
     };
     let mut rng = ctx.rng.split();
     let mut run = Run::new(ctx, t, pack);
@@ -139,6 +138,7 @@ fn one_target<T: Elem>(ctx: &mut Ctx, t: Target<T>) {
         let nontrivial = !a.is_empty() && (a.iter().any(|x| *x != T::zero()) || b.iter().any(|x| *x != T::zero()));
         let mut c: VecCall<T> = run.t.call().with_data(T::zero(), a, b);
         c.place = rotate_place(run.n);
+        c.weight = 3;
         run.n += 1;
         run.tally.note_len(c.a.len());
         let ar = &mut run.ar;
@@ -147,7 +147,7 @@ fn one_target<T: Elem>(ctx: &mut Ctx, t: Target<T>) {
             sample(run.ctx, &c);
         }
     };
-    let reps = tier.pick(1, 3);
+    let reps = tier.pick(1, 12);
     for &len in &lens {
         for class in 0..9u64 {
             for _ in 0..reps {
@@ -159,9 +159,9 @@ fn one_target<T: Elem>(ctx: &mut Ctx, t: Target<T>) {
     }
     if pack > 0 {
         let n = match (tier, t.r.safe) {
-            (Tier::Quick, _) => 90,
-            (Tier::Thorough, true) => 1800,
-            (Tier::Thorough, false) => 9000,
+            (Tier::Quick, _) => 270,
+            (Tier::Thorough, true) => 9000,
+            (Tier::Thorough, false) => 63000,
         };
         for i in 0..n {
             if i % 64 == 0 && run.ctx.out_of_time() {
